@@ -29,7 +29,7 @@ def _blur_lemma(name, qual, mk_args, kernel, renormalised=False):
         calls = ctx.__dict__.get('ghost_fft_calls', [])
         fwd = [c for c in calls if c['fn'] == 'fft2']
         inv = [c for c in calls if c['fn'] == 'ifft2']
-        ctx.oblige('C19::%s.one_forward_one_inverse_fft' % name, len(fwd) == 1 and len(inv) == 1)
+        ctx.oblige('C19::%s.one_forward_one_inverse_fft' % name, len(fwd) == 1 and len(inv) == 1, 'structure')
         if len(fwd) != 1 or len(inv) != 1:
             return
         i, j = ints(ctx, 'i', 'j')
@@ -59,7 +59,7 @@ def _blur_lemma(name, qual, mk_args, kernel, renormalised=False):
         prove.force(ctx, out)
         total_mod = S.sigma(0, n, lambda a: S.sigma(0, m, lambda b: mod(a, b)))
         v = prove.find_named_sum(ctx, total_mod)
-        ctx.oblige('C19::%s.renormalised_by_the_total_of_the_modulus' % name, v is not None)
+        ctx.oblige('C19::%s.renormalised_by_the_total_of_the_modulus' % name, v is not None, 'structure')
         if v is None:
             return
         total_img = S.sigma(0, n, lambda a: S.sigma(0, m, lambda b: img.at((a, b))))
